@@ -6,6 +6,7 @@
 //   drv_codec poison   <pattern>                 -> POI {json}: encodings of default-constructed objects built in
 //                                                   heap memory pre-filled with <pattern>
 #include <csignal>
+#include <map>
 #include <set>
 #include <sstream>
 #include <sys/wait.h>
@@ -72,32 +73,58 @@ static std::string first_diff(const std::string & a, const std::string & b) {
 }
 
 
-// A derived image was decoded to q (same shape as the original object o) and re-encoded to out2, which differs
-// from the derived image mu.  The property asks that field VALUES survive; members the encoder recomputes by
-// design (lengths, struct sizes) are compared against the recomputed value.  For every member that differs
-// between o and q, find the bytes of the encoding it controls (flip it in q, re-encode, see what moves); the
-// re-encoding violates the property iff one of those bytes differs from the derived image.
-static bool values_preserved(ObjectHeaderBase * q, ObjectHeaderBase * o, const std::vector<uint8_t> & mu,
-                             const std::vector<uint8_t> & out2) {
+// number of fixed-size members in which two objects of the same class differ
+static int members_differing(ObjectHeaderBase * a, ObjectHeaderBase * b) {
+    refl::Locator la, lb;
+    refl::visit_dyn(a, la);
+    refl::visit_dyn(b, lb);
+    if (la.locs.size() != lb.locs.size()) return 99;
+    int n = 0;
+    for (size_t i = 0; i < la.locs.size(); i++)
+        if (la.locs[i].n != lb.locs[i].n || memcmp(la.locs[i].p, lb.locs[i].p, la.locs[i].n) != 0) n++;
+    return n;
+}
+
+// Verdict for a derived image (bytes [k, k+w) substituted) that is decoded completely with the same shape into q
+// (o = decoded original) and re-encoded to out2 != mu.  Per member the substitution changed:
+//   - flipping it in q does not change the encoding: the encoder overwrites it (a recomputed length/size field);
+//   - flipping it changes the encoded size: it selects a layout, not a value inside an unchanged shape;
+//   - otherwise the bytes it controls in the encoding must equal the image's bytes (its value survived).
+// Bytes that differ outside the substituted window are acceptable only if the substitution changed how OTHER
+// members were decoded (selector-like: several members differ, more bytes of them than the window holds).
+//   'R' acceptable, 'S' selector (outside the property's precondition), 'B' bad
+static char judge_derived(ObjectHeaderBase * q, ObjectHeaderBase * o, const std::vector<uint8_t> & mu,
+                          const std::vector<uint8_t> & out2, long k, int w) {
+    if (out2.size() != mu.size()) return 'B';
+    bool outside = false;
+    for (size_t j = 0; j < mu.size(); j++)
+        if (out2[j] != mu[j] && ((long) j < k || (long) j >= k + w)) outside = true;
     refl::Locator lq, lo;
     refl::visit_dyn(q, lq);
     refl::visit_dyn(o, lo);
-    if (lq.locs.size() != lo.locs.size() || out2.size() != mu.size()) return false;
+    if (lq.locs.size() != lo.locs.size()) return 'B';
+    int differing = 0;
+    size_t differingBytes = 0;
+    bool layout = false;
     for (size_t i = 0; i < lq.locs.size(); i++) {
         auto & L = lq.locs[i];
         if (memcmp(L.p, lo.locs[i].p, L.n) == 0) continue;
+        differing++;
+        differingBytes += L.n;
         std::vector<uint8_t> keep(L.p, L.p + L.n);
-        for (size_t k = 0; k < L.n; k++) L.p[k] ^= 0xff;
+        for (size_t x = 0; x < L.n; x++) L.p[x] ^= 0xff;
         MemFile mm;
         try { q->write(mm); } catch (...) {}
         memcpy(L.p, keep.data(), L.n);
         MemFile restore;
         try { q->write(restore); } catch (...) {}
-        if (mm.buf.size() != out2.size()) return false;         // the member changes the size: a selector
-        for (size_t k = 0; k < out2.size(); k++)
-            if (mm.buf[k] != out2[k] && out2[k] != mu[k]) return false;   // a byte this member controls was not preserved
+        if (mm.buf == out2) continue;                              // recomputed by the encoder
+        if (mm.buf.size() != out2.size()) { layout = true; continue; }
+        for (size_t j = 0; j < out2.size(); j++)
+            if (mm.buf[j] != out2[j] && out2[j] != mu[j]) return 'B';   // a byte this member controls was not preserved
     }
-    return true;
+    if (outside) return (differing > 1 && (differingBytes > (size_t) w || layout)) ? 'S' : 'B';
+    return 'R';
 }
 
 struct FrameResult {
@@ -443,6 +470,7 @@ int main(int argc, char ** argv) {
             bool identity = false, complete = false;
             long badDerived = 0, okDerived = 0, ignoredBytes = 0, selectors = 0, recomputed = 0;
             std::set<long> badOffsets;
+            std::map<long, std::set<int>> badValues;      // offset -> substituted values that failed (groups: 1000 + 10*w + pattern)
             std::string firstBad;
             if (o) {
                 MemFile in;
@@ -457,15 +485,19 @@ int main(int argc, char ** argv) {
                 bool continue_outer = false;
                 long g0 = (long) in.g;
                 // derived images: single bytes between the base header and the object size
-                static const uint8_t subs[] = {0x00, 0x01, 0x7f, 0x80, 0xff};
-                int nsub = thorough ? 6 : 2;
+                // boundary values, plus values that point at / just before the end of the object (offset and
+                // length fields are compared against the object size by the decoders)
+                const uint8_t subs[] = {0x00, 0x01, 0x7f, 0x80, 0xff};
+                const uint8_t rel[] = {(uint8_t) os, (uint8_t) (os - 8)};
+                int nsub = thorough ? 6 : 5;
                 for (long k = 16; k < os && k < (long) img.size(); k++) {
                     // thorough: every other value for the first 80 bytes behind the base header (headers, selectors,
                     // offsets, lengths live there), boundary values for the rest
                     int count = (thorough && k < 96) ? 256 : nsub;
                     for (int s = 0; s < count; s++) {
                         uint8_t nv = count == 256 ? (uint8_t) s
-                                     : s < 5 ? subs[thorough ? s : (s == 0 ? 4 : 1)] : (uint8_t) (img[(size_t) k] ^ 0x55);
+                                     : thorough ? (s < 5 ? subs[s] : (uint8_t) (img[(size_t) k] ^ 0x55))
+                                     : s < 3 ? subs[s == 0 ? 4 : s == 1 ? 1 : 0] : rel[s - 3];
                         if (nv == img[(size_t) k]) continue;
                         std::vector<uint8_t> mu = img;
                         mu[(size_t) k] = nv;
@@ -483,6 +515,7 @@ int main(int argc, char ** argv) {
                             if (out2.buf.size() != mu.size()) {
                                 badDerived++;
                                 badOffsets.insert(k);
+                                badValues[k].insert(nv);
                                 if (firstBad.empty())
                                     firstBad = "byte " + std::to_string(k) + "=" + std::to_string(nv) + ": decoded completely (" + std::to_string(g0)
                                         + " bytes) but re-encoded to " + std::to_string(out2.buf.size()) + " bytes instead of " + std::to_string(mu.size());
@@ -498,12 +531,18 @@ int main(int argc, char ** argv) {
                             if (continue_outer) { continue_outer = false; delete q; continue; }
                             // the substituted byte itself came back but other bytes changed: it selects a variant /
                             // version (not a value inside an unchanged shape) - outside the property's precondition
-                            if (out2.buf != mu && out2.buf.size() > (size_t) k && out2.buf[(size_t) k] == nv) { selectors++; delete q; continue; }
-                            if (out2.buf != mu && values_preserved(q, o, mu, out2.buf)) { recomputed++; delete q; continue; }
+                            // (only if the substitution changed how OTHER members were decoded; if exactly the one
+                            // member differs it is a plain value and must survive)
+                            if (out2.buf != mu) {
+                                char v = judge_derived(q, o, mu, out2.buf, k, 1);
+                                if (v == 'S') { selectors++; delete q; continue; }
+                                if (v == 'R') { recomputed++; delete q; continue; }
+                            }
                             if (out2.buf == mu) okDerived++;
                             else {
                                 badDerived++;
                                 badOffsets.insert(k);
+                                badValues[k].insert(nv);
                                 if (firstBad.empty()) {
                                     size_t d = 0;
                                     while (d < mu.size() && d < out2.buf.size() && mu[d] == out2.buf[d]) d++;
@@ -534,12 +573,16 @@ int main(int argc, char ** argv) {
                                     try { q->write(out2); } catch (...) {}
                                     derived++;
                                     if (out2.buf != mu && dump(q, false) == dumpOrig) { ignoredBytes++; delete q; continue; }
-                                    if (out2.buf != mu && out2.buf.size() >= (size_t) (k + w) && memcmp(out2.buf.data() + k, mu.data() + k, (size_t) w) == 0) { selectors++; delete q; continue; }
-                                    if (out2.buf != mu && values_preserved(q, o, mu, out2.buf)) { recomputed++; delete q; continue; }
+                                    if (out2.buf != mu) {
+                                        char v = judge_derived(q, o, mu, out2.buf, k, w);
+                                        if (v == 'S') { selectors++; delete q; continue; }
+                                        if (v == 'R') { recomputed++; delete q; continue; }
+                                    }
                                     if (out2.buf == mu) okDerived++;
                                     else {
                                         badDerived++;
                                         badOffsets.insert(k);
+                                        badValues[k].insert(1000 + 10 * w + pat);
                                         if (firstBad.empty()) firstBad = "group " + std::to_string(k) + "/" + std::to_string(w) + " pattern " + std::to_string(pat);
                                     }
                                 }
@@ -553,6 +596,25 @@ int main(int argc, char ** argv) {
             r.putb("complete", complete).putb("identity", identity).put("derivedOk", okDerived).put("derivedBad", badDerived).put("notAField", ignoredBytes).put("selectorLike", selectors).put("recomputed", recomputed);
             if (!firstBad.empty()) r.puts("firstBad", firstBad);
             r.raw("badOffsets", jarr(badOffsets.begin(), badOffsets.end(), [](long v) { return jint(v); }));
+            {
+                // per offset the failing values as ranges, e.g. "1-79,137-255" (identifies the failing inputs exactly)
+                std::string bv = "{";
+                for (auto & kv : badValues) {
+                    std::string rs;
+                    int a = -1, b = -1;
+                    auto flush = [&] { if (a < 0) return; if (!rs.empty()) rs += ","; rs += a == b ? std::to_string(a) : std::to_string(a) + "-" + std::to_string(b); };
+                    for (int v : kv.second) {
+                        if (a >= 0 && v == b + 1) { b = v; continue; }
+                        flush();
+                        a = b = v;
+                    }
+                    flush();
+                    if (bv.size() > 1) bv += ",";
+                    bv += "\"" + std::to_string(kv.first) + "\":\"" + rs + "\"";
+                }
+                bv += "}";
+                r.raw("badValues", bv);
+            }
             printf("IMG %s\n", r.str().c_str());
             fflush(stdout);
             _exit(0);
